@@ -13,7 +13,7 @@ func TestReplay(t *testing.T) {
 	var c Consts
 	graph.Const(&c)
 	a := New(t, c)
-	graph.RunReplay(t, a, a.W.Ctx, nil)
+	graph.RunReplay(t, a, a.W.Ctx, a.AfterEdge)
 }
 
 func TestPath(t *testing.T) {
